@@ -591,3 +591,68 @@ class AddHdfOutputDatasetNoMap(_AddHdfOutputDataset):
     targets = (HDF + ".__add_hdf_output_dataset",)
     variant = "no-index-map"
     params = {"index_dataset": TInt, "keys_group": GK, "values_group": GV, "output_values": OUTS, "output_name_to_idx": TNone}
+
+
+# ---------------------------------------------------------------------------- __get_missing_hdf_output_dataset / append / create
+def listed(F: Node, i, nm, nn):
+    p = F.pos(i, nm)
+    return z3.And(0 <= p, p < nn, F.name(i, p) == nm)
+
+
+def history_names_only_grow(F: Node, i, outs):
+    """History precondition of an append (derived from the call sites: the file was written from an earlier state of the same
+    database and outputs are only ever ADDED at a point): every name listed in k/<i> is still a name of the point, no duplicates."""
+    j = z3.Int("j!hg")
+    nn = F.nn(i)
+    return z3.ForAll([j], z3.Implies(z3.And(0 <= j, j < nn), z3.And(outs.has(F.name(i, j)), F.pos(i, F.name(i, j)) == j)), patterns=[F.name(i, j)])
+
+
+def _missing_cardinality(c):
+    """Cited lemma (finite sets): the names of a finite map that are not in a duplicate-free list of some of its names are
+    |map| - |list| many."""
+    F0 = node_of(c, "old", v=None)
+    i = c.old.index_dataset
+    outs = c.old.output_values
+    return [("cardinality of a set difference: |names not yet listed| = |names| - |listed names| (listed names distinct and all among the names)",
+             z3.Implies(history_names_only_grow(F0, i, outs), c.locals["missing_name_values"].n == outs.n - F0.nn(i)))]
+
+
+def _order_witness(c, nm):
+    o = c.new.output_values  # (the same mapping: it is not modified; its order view exists once the function has iterated over it)
+    if o.pos is None:
+        return []
+    return [o.pos[nm] >= 0, o.keys[o.pos[nm]] == nm]
+
+
+@register
+class GetMissingHdfOutputDataset(_Hdf):
+    """The names of ``output_values`` not yet listed in k/<i> with their values, and for each of them the position it will take
+    in k/<i> (after the existing ones, in the order of sorted()); ({}, {}) if there is none; ValueError iff k/<i> is absent."""
+
+    targets = (HDF + ".__get_missing_hdf_output_dataset",)
+    params = {"index_dataset": TInt, "keys_group": GK, "output_values": OUTS}
+    returns = TTuple(OUTS, IDXMAP)
+    raises = {"ValueError": lambda c: z3.Not(c.old.keys_group.ds.has(sidx(c.old.index_dataset)))}
+    cited_lemmas = {"if not missing_name_values:": _missing_cardinality}
+
+    def requires(self, c):
+        F0 = node_of(c, "old", v=None)
+        i = c.old.index_dataset
+        return [("type:listing-length", F0.nn(i) >= 0), ("history:listed-names-are-names-of-the-point", history_names_only_grow(F0, i, c.old.output_values))]
+
+    def ensures(self, c):
+        F0 = node_of(c, "old", v=None)
+        i = c.old.index_dataset
+        outs = c.old.output_values
+        nn0 = F0.nn(i)
+        missing, idx = (C.View(c._new_heap, r, c.st) for r in c.result_value)
+        nm = z3.Const("nm!gm", StrS)
+        return [
+            ("missing:names-are-unlisted-names", z3.ForAll([nm], z3.Implies(missing.has(nm), z3.And(outs.has(nm), z3.Not(listed(F0, i, nm, nn0)))))),
+            # (outs.pos[nm] >= 0 holds for every name of the mapping - order view -; it is written out as the witness of the comprehension)
+            ("missing:every-unlisted-name", z3.ForAll([nm], z3.Implies(z3.And(outs.has(nm), z3.Not(listed(F0, i, nm, nn0)), *_order_witness(c, nm)), missing.has(nm)))),
+            ("missing:values", z3.ForAll([nm], z3.Implies(missing.has(nm), missing.get(nm) == outs.get(nm)))),
+            ("missing:count", missing.n == outs.n - nn0),
+            ("positions", z3.If(missing.n == 0, idx.n == 0,
+                                z3.ForAll([nm], z3.Implies(missing.has(nm), z3.And(idx.has(nm), idx.get(nm) == nn0 + H.sorted_pos(H.named_mem(c.st, missing.member), nm)))))),
+        ]
